@@ -243,6 +243,12 @@ impl ControlHandle {
         let cmd = cmd.finalize(self.next_req_id);
         let cmd_len = cmd.cmd_len();
         let ack_len = cmd.maximum_ack_len();
+        let ack_kind = match cmd.ccd().scd_kind() {
+            cmd::ScdKind::ReadMem => ack::ScdKind::ReadMem,
+            cmd::ScdKind::WriteMem => ack::ScdKind::WriteMem,
+            cmd::ScdKind::ReadMemStacked => ack::ScdKind::ReadMemStacked,
+            cmd::ScdKind::WriteMemStacked => ack::ScdKind::WriteMemStacked,
+        };
         if self.buffer.len() < std::cmp::max(cmd_len, ack_len) {
             self.buffer.resize(std::cmp::max(cmd_len, ack_len), 0);
         }
@@ -269,6 +275,14 @@ impl ControlHandle {
                 std::thread::sleep(pending_ack.timeout);
                 retry_count -= 1;
                 continue;
+            }
+
+            // The acknowledge must be the one corresponding to the command.
+            if ack.scd_kind() != ack_kind {
+                return Err(ControlError::Io(anyhow::Error::msg(format!(
+                    "unexpected acknowledge kind: {:?}",
+                    ack.scd_kind()
+                ))));
             }
 
             self.next_req_id = self.next_req_id.wrapping_add(1);
